@@ -286,3 +286,9 @@ def run(chk, facts, tier, only=None):
         if only and only != rid:
             continue
         chk.run_rule(rid, desc, fn)
+    if only is None:
+        import c09
+        import c15
+        chk.include(c09, "C09.R1", "C03.R7", facts)     # number writers: the (S)LEB128 encoders lose no significant bit (and cannot trap)
+        chk.include(c09, "C09.R3", "C03.R8", facts)     # ... and use the LEB128 byte masks
+        chk.include(c15, "C15.R3", "C03.R9", facts)     # field ids written on the wire come from the label the type declares (derive / field! provenance)
